@@ -247,8 +247,8 @@ func gateOne(b *model.Behaviour, k int, job *gateJob) (parked bool, blocked bool
 		g.gate.Disarm()
 		wg.Wait()
 		return false, false, rmsg
-	case <-time.After(5 * time.Second):
-		return false, false, "the reader neither reached its storage read nor returned within 5s"
+	case <-time.After(120 * time.Second):
+		return false, false, "the reader neither reached its storage read nor returned within 120s"
 	}
 	// the writer runs the whole operation while the reader sits inside its storage read
 	wdone := make(chan error, 1)
@@ -271,8 +271,8 @@ func gateOne(b *model.Behaviour, k int, job *gateJob) (parked bool, blocked bool
 	if blocked {
 		select {
 		case werr = <-wdone:
-		case <-time.After(10 * time.Second):
-			return true, true, "the writer did not return within 10s after the reader was released"
+		case <-time.After(120 * time.Second):
+			return true, true, "the writer did not return within 120s after the reader was released"
 		}
 	}
 	if werr != nil {
